@@ -86,6 +86,27 @@ def m_iclamp(it, st, fr, t, args, ga):
     return I.Num(t_min(t_max(x.term, lo.term, st.ctx), hi.term, st.ctx), x.ty)
 
 
+def m_partial_ne(it, st, fr, t, args, ga):
+    """default PartialEq::ne = !eq: run the type's own eq"""
+    ty = None
+    for a in ga:
+        if 'ty' in a:
+            ty = a['ty']
+            break
+    if ty is not None:
+        path = '<%s as core::cmp::PartialEq>::eq' % ty.get('s')
+        if path in it.facts.fns:
+            r = it.call_fn_sync(st, path, [args[0], args[1]])
+            if isinstance(r, I.BoolV):
+                return I.BoolV(bnot(r.b))
+    return I.BoolV(B(('sym', st.fresh_name('ne'))))
+
+
+def m_abs_diff(it, st, fr, t, args, ga):
+    a, b = _num(args[0]), _num(args[1])
+    return I.Num(t_abs(a.term - b.term, st.ctx), a.ty)
+
+
 def m_identity(it, st, fr, t, args, ga):
     return args[0]
 
@@ -352,6 +373,34 @@ def _opt_ref_num(it, st, c, fname):
     return ('fork', [(cmp_term('Gt', c.len, 0), some_), (cmp_term('Eq', c.len, 0), none_)])
 
 
+def elem_term(term, idx, length, ctx, ety=None):
+    """normal form of element `idx` of a sequence term: elem(push(T,x), len(T)) = x, elem(push(T,x), i<len(T)) =
+    elem(T,i), elem(from(T,s), i) = elem(T, s+i)"""
+    ety = ety or {'k': 'uint', 'n': 'u8'}
+    idx = as_poly(idx)
+    while isinstance(term, tuple) and term:
+        if term[0] == 'from':
+            idx = idx + term[2]
+            length = None
+            term = term[1]
+            continue
+        if term[0] == 'push' and length is not None and isinstance(term[2], Poly):
+            inner_len = length - 1
+            if ctx.decide(cmp_term('Eq', idx, inner_len)) is True:
+                return term[2]
+            if ctx.decide(cmp_term('Lt', idx, inner_len)) is True:
+                term, length = term[1], inner_len
+                continue
+        break
+    tm = t_app('elem', [term, idx])
+    a = tm.as_single_atom()
+    if ety['k'] in ('int', 'uint'):
+        lo, hi = I.INT_RANGES[ety['n']]
+        ctx.ranges.setdefault(a, (Fr(lo), Fr(hi)))
+        ctx.int_atoms.add(a)
+    return tm
+
+
 def select_term(fname, term, length, ctx, ety=None):
     """normal form of last/max/min over a sequence term:
        last(push(T,x)) = x;  max(push(T,x)) = x if T is empty, max(max(T), x) if T is non-empty (same for min)"""
@@ -365,10 +414,10 @@ def select_term(fname, term, length, ctx, ety=None):
             ctx.ranges.setdefault(a, (Fr(lo), Fr(hi)))
             ctx.int_atoms.add(a)
         return tm
+    if fname == 'last':
+        return elem_term(term, length - 1, length, ctx, ety)
     if isinstance(term, tuple) and term and term[0] == 'push' and isinstance(term[2], Poly):
         x = term[2]
-        if fname == 'last':
-            return x
         inner_len = length - 1
         e = ctx.decide(cmp_term('Eq', inner_len, 0))
         if e is True:
@@ -395,6 +444,8 @@ def _elem_value(it, st, c, idx_poly):
     """abstract element `idx` of a slice container"""
     term = c.term
     idx = as_poly(idx_poly)
+    if c.elem_ty is not None and c.elem_ty.get('k') in ('int', 'uint') and c.len is not None:
+        return I.Num(elem_term(term, idx, c.len, st.ctx, c.elem_ty), c.elem_ty['n'])
     # normalise elem(from(T, s), i) = elem(T, s+i)
     while isinstance(term, tuple) and term and term[0] == 'from':
         idx = idx + term[2]
@@ -495,9 +546,81 @@ def m_for_each(it, st, fr, t, args, ga):
     return I.UnitV()
 
 
+def m_range_incl_new(it, st, fr, t, args, ga):
+    a, b = _num(args[0]), _num(args[1])
+    return I.StructV('core::ops::range::RangeInclusive', ['start', 'end', 'exhausted'], [a, b, I.BoolV(FALSE)])
+
+
+def m_range_incl_next(it, st, fr, t, args, ga):
+    r = it.deref(st, args[0])
+    if not isinstance(r, I.StructV) or 'start' not in r.names:
+        raise I.InterpError('RangeInclusive::next on %r' % (r,))
+    start, end = r.get('start'), r.get('end')
+
+    def some_(it2, s2, f2):
+        r2 = it2.deref(s2, it2.operand(s2, f2, t['args'][0]))
+        s_ = r2.get('start')
+        # abstractly: the yielded value is the current start (start <= end); afterwards start' in (start, end] or exhausted
+        nm = s2.fresh_name('incl_next')
+        lo, _ = s2.ctx.rng(s_.term)
+        _, hi = s2.ctx.rng(r2.get('end').term)
+        a = ('sym', nm)
+        s2.ctx.ranges[a] = (lo, hi)
+        s2.ctx.int_atoms.add(a)
+        r2.fields[r2.names.index('start')] = I.Num(Poly.atom(a), s_.ty)
+        r2.fields[r2.names.index('exhausted')] = I.BoolV(B(('sym', s2.fresh_name('exhausted'))))
+        return some(I.Num(s_.term, s_.ty))
+
+    def none_(it2, s2, f2):
+        return none()
+    ex = r.get('exhausted')
+    alts = [(cmp_term('Le', start.term, end.term), some_), (None, none_)]
+    return ('fork', alts)
+
+
+def m_slice_iter_next(it, st, fr, t, args, ga):
+    c = _cont(it, st, args[0])
+
+    def some_(it2, s2, f2):
+        c2 = _cont(it2, s2, it2.operand(s2, f2, t['args'][0]))
+        i = s2.ctx.sym_range(s2.fresh_name('iter_pos'), 0, 2 ** 32, integer=True)
+        v = _elem_value(it2, s2, c2, i)
+        cell = s2.new_cell(v)
+        s2.last_iter_elem = (c2.term, v, c2.len)
+        return some(I.RefV(cell))
+
+    def none_(it2, s2, f2):
+        return none()
+    n = c.len.const_value() if c.len is not None else None
+    if n == 0:
+        return ('fork', [(None, none_)])
+    return ('fork', [(None, some_), (None, none_)])
+
+
+def m_ref_into_iter(it, st, fr, t, args, ga):
+    """<&[T] as IntoIterator>::into_iter / <&Vec as IntoIterator>::into_iter"""
+    c = _cont(it, st, args[0])
+    return I.ContV('slice_iter', c.term, length=c.len, elem_ty=c.elem_ty, extra=dict(c.extra))
+
+
 def m_slice_index(it, st, fr, t, args, ga):
     c = _cont(it, st, args[0])
     r = args[1]
+    if isinstance(r, I.Num):
+        # slice[i]: bounds obligation + element term
+        ok = st.ctx.decide(cmp_term('Lt', r.term, c.len))
+        key = 'slice-elem@%s#%s' % (fr.fn['path'], it.site_ordinal(fr, fr.bb))
+        detail = 'slice[%r] with len %r' % (r.term, c.len)
+        if ok is True:
+            st.obligations.append(I.Obligation('bounds', fr.fn['path'], t['span'], detail, 'discharged', key))
+        elif ok is False:
+            st.obligations.append(I.Obligation('bounds', fr.fn['path'], t['span'], detail, 'violated', key))
+            return ('panic', 'index out of bounds')
+        else:
+            st.obligations.append(I.Obligation('bounds', fr.fn['path'], t['span'], detail, 'unknown', key))
+            st.ctx.assume(cmp_term('Lt', r.term, c.len))
+        v = _elem_value(it, st, c, r.term)
+        return I.RefV(st.new_cell(v))
     if isinstance(r, I.StructV) and r.path.endswith('RangeFrom'):
         start = r.fields[0].term
         ok = st.ctx.decide(cmp_term('Le', start, c.len))
@@ -615,6 +738,12 @@ def registry():
         'core::num::<impl i32>::wrapping_add': _wrapping('add'),
         'core::num::<impl i32>::wrapping_sub': _wrapping('sub'),
         'core::num::<impl i32>::wrapping_mul': _wrapping('mul'),
+        'core::cmp::PartialEq::ne': m_partial_ne,
+        'core::num::<impl u8>::abs_diff': m_abs_diff,
+        'core::num::<impl u16>::abs_diff': m_abs_diff,
+        'core::num::<impl u32>::abs_diff': m_abs_diff,
+        'core::num::<impl u64>::abs_diff': m_abs_diff,
+        'core::num::<impl usize>::abs_diff': m_abs_diff,
         'core::convert::Into::into': m_identity,
         '<T as core::convert::Into<U>>::into': m_identity,
         '<T as core::convert::From<T>>::from': m_identity,
@@ -650,6 +779,11 @@ def registry():
         "<core::slice::Iter<'a, T> as core::iter::Iterator>::for_each": m_for_each,
         'core::iter::Iterator::for_each': m_for_each,
         'core::slice::index::<impl core::ops::Index<I> for [T]>::index': m_slice_index,
+        'core::ops::RangeInclusive::<Idx>::new': m_range_incl_new,
+        'core::iter::range::<impl core::iter::Iterator for core::ops::RangeInclusive<A>>::next': m_range_incl_next,
+        "<core::slice::Iter<'a, T> as core::iter::Iterator>::next": m_slice_iter_next,
+        "core::slice::iter::<impl core::iter::IntoIterator for &'a [T]>::into_iter": m_ref_into_iter,
+        "<&'a [T] as core::iter::IntoIterator>::into_iter": m_ref_into_iter,
         'heapless::histbuf::HistoryBuffer::<T, N>::new': m_hist_new,
         'heapless::histbuf::HistoryBuffer::<T, N>::write': m_hist_write,
         'heapless::histbuf::HistoryBuffer::<T, N>::capacity': m_hist_capacity,
